@@ -113,6 +113,20 @@ Theorem float_exact_path_is_rounding : forall s f, NumLit.parse_float s = Some f
 Proof. exact NumLitProofs.parse_float_exact_is_rounded. Qed.
 Print Assumptions float_exact_path_is_rounding.
 
+(* ... and that conversion is IEEE 754 binary64 rounding of the decimal value of the text (Flocq: round radix2
+   (FLT_exp (-1074) 53) ZnearestE -- round to nearest, ties to even, subnormals included), with ErrRange exactly when
+   the rounded value reaches 2^1024: for EVERY text on which the conversion does not answer FRSyntax, the text is
+   -? D+ (. D+)? (e [+-]? D+)? and the result is the correctly rounded value of digits * 10^(exp - |frac|).
+   (A statement about real numbers: Print Assumptions lists the axioms of Coq's Reals.) *)
+From Soy Require Proofs.NumLitFlocq.
+Theorem float_literal_correctly_rounded : forall s, NumLit.parse_float_round s <> NumLit.FRSyntax ->
+  exists l esgn, s = NumLitFlocq.nf_text l esgn /\ NumLit.lit_int l <> [] /\
+    NumLitFlocq.nf_digits (NumLit.lit_int l) /\ NumLitFlocq.nf_digits (NumLit.lit_frac l) /\ NumLitFlocq.nf_digits (NumLit.lit_exp l) /\
+    (esgn = [] \/ esgn = [43%N] \/ esgn = [45%N]) /\ (NumLit.lit_eneg l = true -> esgn = [45%N]) /\
+    NumLitFlocq.nf_res_spec (NumLit.lit_neg l) (NumLitFlocq.nf_lit_abs l) (NumLit.parse_float_round s).
+Proof. exact NumLitFlocq.nf_parse_float_correctly_rounded. Qed.
+Print Assumptions float_literal_correctly_rounded.
+
 Theorem soy_file_total_composed : forall (uni_letter uni_digit : Z -> bool),
   uni_letter (-1) = false -> uni_digit (-1) = false ->
   forall (unq : bstr -> option bstr) (s : bstr),
